@@ -59,10 +59,14 @@ Agreement(Pr, V) ==       \* the verifier additionally draws the final batching 
 
 NReads(V) == Cardinality({i \in 1..Len(V) : V[i].op = "read"})
 
+\* the vectors of the inner-product argument (accumulator bases + fixed bases, `ipa.len` of them) are padded to the next
+\* power of two: exactly ceil(log2 len) rounds, none more when the length already is a power of two
+CeilLog2(n) == CHOOSE k \in 0..20 : P2(k) >= n /\ (k = 0 \/ P2(k - 1) < n)
 AggOK(e) ==
   /\ e.inner.valid = TRUE
   /\ e.aggregate = "ok" /\ e.verdict = "ok" /\ e.trailing = FALSE
   /\ Shape(e.verifier)
+  /\ (Has(e, "ipa") /\ Has(e.ipa, "len")) => IpaTail(e.verifier, CeilLog2(e.ipa.len))
   /\ Agreement(e.prover, e.verifier)
 
 Rejected(v) == v # "ok"
